@@ -134,19 +134,7 @@ Definition clause (c : case) : bool :=
 
 (* ---------------- known classes: decidable, INPUT only ---------------- *)
 (* (class 1, the i64-edge panic F2, was fixed by 48adbab and no longer exists) *)
-(* K2 (C11 F15): bounds in em/ex/ch, vmin/vmax or %/fr are converted into each
-   other with invented ratios instead of being rejected *)
-Definition lone_family (u : string) : N :=
-  if existsb (String.eqb u) ["em"; "ex"; "ch"]%string then 1%N
-  else if existsb (String.eqb u) ["vmin"; "vmax"]%string then 2%N
-  else if existsb (String.eqb u) ["%"; "fr"]%string then 3%N
-  else 0%N.
-Definition known_K2 (i : cinput) : bool :=
-  match i with
-  | CFor _ ua _ ub _ =>
-      negb (String.eqb ua ub) && negb (lone_family ua =? 0)%N && (lone_family ua =? lone_family ub)%N
-  | _ => false
-  end.
+(* (class 2, invented ratios between em/ex/ch, vmin/vmax, %/fr - C11 F15 - was fixed by c9cdb70) *)
 
 Definition b2z (b : bool) : Z := if b then 1 else 0.
 Definition kind (i : cinput) : Z :=
@@ -155,5 +143,5 @@ Definition kind (i : cinput) : Z :=
 (* result: [corr; clause ok; known class of the input; kind] *)
 Definition run (c : case) : list Z :=
   [ corr c; b2z (clause c);
-    (if known_K2 (c_in c) then 2 else 0);
+    0;
     kind (c_in c) ].
